@@ -513,6 +513,7 @@ func c12Run(c *c12Case, out *vlib.Out) (res c12Out) {
 	switch {
 	case panicked != nil:
 		res.impl = "panic To4"
+		out.Count("outcome:panic-selector-contract")
 		if !strings.Contains(fmt.Sprint(panicked), "index out of range") || c.sel.v4.To4() != nil {
 			res.impl = "panic other: " + fmt.Sprint(panicked)
 			fail("C12:panic", "RegisterBidirectional panicked: "+fmt.Sprint(panicked))
@@ -621,6 +622,7 @@ func c12Run(c *c12Case, out *vlib.Out) (res c12Out) {
 			}
 		}
 		out.Count("oracle:substituted")
+		out.Count(fmt.Sprintf("substituted-from-subnet:%d", res.chosen))
 	}
 	// 5. the station ends up with the same phantom, port and parameters
 	c12StationOracle(c, fwd, resp, out, fail)
